@@ -1,10 +1,97 @@
-(* C02 - interim (pipeline first): the monitor is not trivially true.  The property theorems replace this. *)
-From Coercion.Base Require Import Plan.
-From Coercion.Engine Require Import Shape Event Accept.
-From Coercion.C02 Require Import MonC02 Examples.
+(* C02 - At most Block.Concurrency sequences in flight; one block at a time.
 
-Theorem c02_monitor_rejects_partial :
-  mon_conc (sh2, [EvStart (ASeq 0 0 0); EvStart (ASeq 0 1 0); EvStart (ASeq 0 2 0)]) = false
-  /\ mon_conc (sh2, [EvStart (ASeq 0 0 0); EvStart (ASeq 1 0 0)]) = false.
-Proof. exact (conj bad_three_rejected bad_overlap_rejected). Qed.
-Print Assumptions c02_monitor_rejects_partial.
+   Only statements, `exact`, Print Assumptions.  The monitor (the formal statement over a trace) is MonC02.v;
+   proofs: AutoInv.v (inversion of the automaton's handlers, reachable-state invariant), MonC02Proofs.v (product
+   invariant), MechLink.v (tie to the mechanism model coq/limiter); concrete instances: Examples.v.
+   Every theorem is for ALL shapes, ALL traces and ALL interleavings the observable automaton admits; no bounds.
+   (shape_wf - Concurrency >= 1 - is the premise the phase-2 pattern prescribes; the proofs do not need it: with
+   Concurrency 0 the launch guard is never true and nothing is ever in flight.) *)
+From Coq Require Import List ZArith.
+From Coercion.Base Require Import Plan.
+From Coercion.Engine Require Import Shape Event Seq Block PlanSM Auto Accept.
+From Coercion.Limiter Require Limiter.
+From Coercion.C02 Require Import MonC02 AutoInv MonC02Proofs MechLink Examples.
+Import ListNotations.
+
+(* THE PROPERTY: every trace the automaton accepts from the initial state satisfies the monitor - after every
+   event, the sequences of a block with an action in flight are at most its Concurrency, and no two blocks have
+   a sequence action in flight together. *)
+Theorem c02_concurrency_bound :
+  forall (sh : shape) (tr : list event) (s : st),
+    shape_wf sh = true -> run sh init tr = Some s -> mon_conc (sh, tr) = true.
+Proof. exact c02_concurrency_bound_l. Qed.
+Print Assumptions c02_concurrency_bound.
+
+(* the same, with "at every prefix" and both clauses written out: after ANY prefix tr1 of an accepted trace the
+   monitor is in a state m whose in-flight list m_fly satisfies one_block, and for EVERY block b the number of
+   distinct sequences of b in it is at most b's Concurrency *)
+Theorem c02_every_prefix :
+  forall (sh : shape) (tr1 tr2 : list event) (s : st),
+    shape_wf sh = true -> run sh init (tr1 ++ tr2) = Some s ->
+    exists m : mst,
+      mon_run sh m0 tr1 = Some m /\
+      one_block (m_fly m) = true /\
+      forall b : nat, length (seqs_in_flight b (m_fly m)) <= conc_of sh b.
+Proof. exact c02_every_prefix_l. Qed.
+Print Assumptions c02_every_prefix.
+
+(* the durable-level bound (the notion of Limiter.limiter_conc_bound: a sequence is in flight from its Running
+   write to its Completed/Failed write): in every reachable state inside a block, the sequences of the current
+   block started and not yet terminal-written are at most its Concurrency.  Sequences of other blocks have no
+   state at all in the automaton: events of a block are admitted only while it is the current one. *)
+Theorem c02_durable_bound :
+  forall (sh : shape) (tr : list event) (s : st) (bs : bshape),
+    run sh init tr = Some s -> s_ph s = PBlocks -> block_of sh (s_cb s) = Some bs ->
+    inflight (s_b s) <= bs_conc bs.
+Proof. exact c02_durable_bound_l. Qed.
+Print Assumptions c02_durable_bound.
+
+(* ---- the tie to the mechanism (coq/limiter: limiter channel + Limited pool + WaitGroup) ---- *)
+
+(* the automaton's launch guard is the guard of Limiter.v, over the same observables I and f *)
+Theorem c02_launch_guard_is_limiter_guard :
+  forall (c : Limiter.cfg) (bs : bshape) (b : bst),
+    Limiter.conc c = bs_conc bs -> Limiter.tol c = bs_tol bs ->
+    launch_guard bs b = Limiter.guard c (inflight b) (Z.of_nat (failed_seqs b)).
+Proof. exact launch_guard_is_limiter_guard. Qed.
+Print Assumptions c02_launch_guard_is_limiter_guard.
+
+(* every handled event of the automaton inside a block is one step of the mechanism's OBSERVER fold
+   (Limiter.run_mon, the monitor of limiter_refines) on its projection - a sequence's Running write is OStart,
+   its Completed/Failed write is OEnd, everything else is silent - from the automaton's counters
+   (inflight, failed_seqs) to the automaton's counters *)
+Theorem c02_automaton_steps_limiter_observer :
+  forall (sh : shape) (s : st) (e : event) (s' : st) (bs : bshape) (c : Limiter.cfg),
+    s_ph s = PBlocks -> block_of sh (s_cb s) = Some bs ->
+    Limiter.conc c = bs_conc bs -> Limiter.tol c = bs_tol bs ->
+    handle sh s e = Some s' ->
+    Limiter.run_mon c (counters (s_b s)) (proj (s_cb s) e) = Some (counters (s_b s')).
+Proof. exact handle_limiter_observer_l. Qed.
+Print Assumptions c02_automaton_steps_limiter_observer.
+
+(* a block is entered with the observer's initial counters *)
+Theorem c02_block_entry_is_observer_init :
+  forall (bs : bshape) (fails : nat -> bool), counters (b_init bs) = Limiter.m0 (cfg_of bs fails).
+Proof. exact counters_init. Qed.
+Print Assumptions c02_block_entry_is_observer_init.
+
+(* and the automaton admits the launch of an idle sequence exactly when that observer admits OStart *)
+Theorem c02_launch_iff_observer :
+  forall (bs : bshape) (b : bst) (q : nat) (c : Limiter.cfg),
+    Limiter.conc c = bs_conc bs -> Limiter.tol c = bs_tol bs ->
+    b_ph b = BSeqs -> nth_error (b_seqs b) q = Some SIdle ->
+    (b_seq_launch bs b q <> None <-> Limiter.mon c (counters b) (Limiter.OStart q) <> None).
+Proof. exact launch_iff_observer_l. Qed.
+Print Assumptions c02_launch_iff_observer.
+
+(* ---- non-vacuity: the hypotheses are satisfiable on a real 91-event two-block trace with a failed sequence and
+   a retried action on which the bound is attained, and the monitor is not trivially true ---- *)
+Theorem c02_nonvacuous :
+  shape_wf real_shape = true /\ accepts real_shape real_trace = true /\ conc_peak (real_shape, real_trace) = [0; 2]
+  /\ mon_conc (real_shape, real_mutated_three) = false /\ mon_conc (real_shape, real_mutated_overlap) = false
+  /\ mon_conc (sh2, bad_three) = false /\ mon_conc (sh2, bad_overlap) = false.
+Proof.
+  exact (conj real_wf (conj real_accepted (conj real_peak
+        (conj real_mutated_three_false (conj real_mutated_overlap_false (conj bad_three_rejected bad_overlap_rejected)))))).
+Qed.
+Print Assumptions c02_nonvacuous.
